@@ -550,3 +550,6 @@ M('C19', 'event-index-encoding', L, "cell_divided = reaction_choice - self.num_r
 M('C01', 'lineage-events-plain-slot', L, "propensity_destination[self.num_reactions+ind] = (<Propensity>(self.c_lineage_propensities[0][ind])).get_stochastic_volume_propensity(", "propensity_destination[self.num_reactions+ind] = (<Propensity>(self.c_lineage_propensities[0][ind])).get_volume_propensity(", 'fire', 'R1.4-iface-loop/lineage')
 M('C08', 'hidden-generator-state', R, "cdef double exponential_rv(double Lambda):", "cdef double last_uniform = 0.5\n\ncdef double exponential_rv_antithetic(double Lambda):\n    global last_uniform\n    last_uniform = 1.0 - last_uniform\n    return -1.0/Lambda*log(last_uniform)\n\ncdef double exponential_rv(double Lambda):", 'fire', 'R8.5-seed/generator-state')
 M('C10', 'queue-upper-clamp-removed', S, "        elif index >= int(self.num_cols):\n            index = self.num_cols-1\n", "", 'fire', 'R20.1-add')
+M('C12', 'reader-filters-frequency', SB, "                    if k == \"rule_frequency\":\n                        rule_frequency = v", "                    if k == \"rule_frequency\":\n                        if v in ('repeated', 'dt') or v.isdigit():\n                            rule_frequency = v", 'fire', 'R12.1-rule-frequency')
+M('C12', 'reader-drops-numeric-propensity-values', SB, "                    try:\n                        propensity_params[k] = float(v)\n                    except ValueError:\n                        propensity_params[k] = v",
+  "                    try:\n                        propensity_params[k] = float(v)\n                    except ValueError:\n                        if k != 'n':\n                            propensity_params[k] = v", 'fire', 'R12.1-separators/propensity')
